@@ -19,7 +19,7 @@ from .interp import MAX_DT, MAX_DT_VALUE
 # symbolic constants with one value in proof mode and a scaled-down value in the finite scope
 INVALID_CURSOR = z3.Int("INVALID_CURSOR")
 SPECIAL = {"MAX_DT": (MAX_DT, MAX_DT_VALUE, lambda lo, hi: hi),
-           "INVALID_CURSOR": (INVALID_CURSOR, 2 ** 64 - 1, lambda lo, hi: hi + 1)}
+           "INVALID_CURSOR": (INVALID_CURSOR, 2 ** 64 - 1, lambda lo, hi: hi + 2)}
 
 PROVE_MS = int(os.environ.get("CXXVC_PROVE_MS", "20000"))
 QUICK_MS = int(os.environ.get("CXXVC_QUICK_MS", "4000"))
@@ -149,7 +149,7 @@ def work(job):
     lo, hi = scope.get("lo", 0), scope.get("hi", 4)
     last = None
     for (lo_, hi_) in [(lo, hi)] + list(scope.get("more", [])):
-        uni = list(range(lo_ - 1, hi_ + 2))
+        uni = list(range(lo_ - 2, hi_ + 3))
         try:
             cache = {}
             ex = [_expand(a, uni, cache) for a in asserts]
@@ -165,12 +165,12 @@ def work(job):
             _free_consts(a, consts, seen)
         for nm, c in consts.items():
             if c.sort() == z3.IntSort() and nm not in SPECIAL:
-                s2.add(c >= lo_, c <= hi_)
+                s2.add(c >= lo_ - 1, c <= hi_ + 1)
             elif z3.is_array(c):
                 # array contents stay inside the universe as well (values and nested values)
                 def bound(term, srt):
                     if srt == z3.IntSort():
-                        s2.add(term >= lo_ - 1, term <= hi_ + 1)
+                        s2.add(term >= lo_ - 2, term <= hi_ + 2)
                     elif isinstance(srt, z3.ArraySortRef) and srt.domain() == z3.IntSort():
                         for v in uni:
                             bound(term[v], srt.range())
